@@ -378,12 +378,26 @@ class NativeFilter(NativeCheck):
                        enzyme=rng.choice(['trypsin', 'trypsin', 'lysc']),
                        lo=rng.choice([None, 0, 1]), hi=rng.choice([None, 0, 1, 2]))
 
+    @staticmethod
+    def splice_altering(label):
+        """definitional: a plain variant entry one of whose variant ids has an alternative splicing type as a token"""
+        import re
+        fields = label.split('|')
+        if fields[0].startswith(('FUSION-', 'CIRC-', 'CI-')):
+            return False
+        return any(t in ('SE', 'A5SS', 'A3SS', 'RI', 'MXE') for fld in fields[1:] for t in re.split('[-_]', fld))
+
     def _mkpool(self):
         from moPepGen.aa import VariantPeptidePool, AminoAcidSeqRecord
         from Bio.Seq import Seq
         f, coding, txs = self.pool()
         pool = VariantPeptidePool()
         for h, s in f.items():
+            pool.peptides.add(AminoAcidSeqRecord(Seq(s), _id=h, name=h, description=h))
+        # entries whose variant ids merely contain the letters of a splicing type (alt-translation labels) and real splicing ids
+        for n, (lab, s) in enumerate([('SECT-12', 'MKPEPTIDESECR'), ('W2F-3', 'AAAFPEPTIDEK'), ('SE_10-20-30-40', 'SKIPPEDEXNK'), ('RI_5-50', 'RETAINEDINTRNK'),
+                                      ('SECT-7|W2F-9', 'MKSECWFPEPR')]):
+            h = f'{txs[n % len(txs)]}|{lab}|1'
             pool.peptides.add(AminoAcidSeqRecord(Seq(s), _id=h, name=h, description=h))
         return pool
 
@@ -417,7 +431,7 @@ class NativeFilter(NativeCheck):
                 denied = deny is not None and seq in deny
                 ok = not (denied and not (inp['keep_canonical'] and canonical)) and (
                     (inp['keep_all_noncoding'] and all_nc) or (inp['keep_all_coding'] and all_c) or exprs is None
-                    or entry.is_fusion() or entry.is_circ_rna() or entry.is_splice_altering()
+                    or entry.is_fusion() or entry.is_circ_rna() or self.splice_altering(str(entry))
                     or all(exprs[t] >= inp['cutoff'] for t in tids))
                 if ok:
                     kept.append(str(entry))
